@@ -228,6 +228,24 @@ def unit_gather(S):
             what="batches()[q, j] is sample batch_indices[q, j] in every leaf")
 
 
+def native_flatten_replay(model):
+    """R1: an id-encoded RolloutBuffer (every field of sample (e, s) carries the id e*S+s) through the real flatten_axes / batches / sample for every axis order."""
+    Ec, Sc = 3, 4
+    ids = jnp.arange(Ec * Sc, dtype=f32).reshape(Ec, Sc)
+    buf = RolloutBuffer(jnp.stack([ids, ids + 0.5], -1), ids, ids, ids > 5, ids, ids, GPState(ids[..., None]))
+    buf = eqx.tree_at(lambda b: (b.advantages, b.returns), buf, (ids, ids))
+    for axes in (None, (0, 1), (1, 0), (-1, -2), (0, -1), (-2, -1)):
+        fl = buf.flatten_axes(axes)
+        cols = dict(obs=np.asarray(fl.observations)[:, 0], actions=np.asarray(fl.actions), rewards=np.asarray(fl.rewards), log_probs=np.asarray(fl.log_probs), values=np.asarray(fl.values),
+                    advantages=np.asarray(fl.advantages), returns=np.asarray(fl.returns), state=np.asarray(fl.states.h)[:, 0])
+        ref = cols["obs"]
+        bad = [n for n, c in cols.items() if c.shape != ref.shape or not np.array_equal(c, ref)]
+        if bad or sorted(ref.tolist()) != list(range(Ec * Sc)):
+            return dict(reproduced=True, route="R1 (real flatten_axes on an id-encoded RolloutBuffer)", inputs=dict(num_envs=Ec, num_steps=Sc, batch_axes=axes),
+                        observed=dict(fields_not_aligned_with_observations=bad, observation_ids=ref.tolist(), **{n: cols[n].tolist() for n in bad[:2]}))
+    return dict(reproduced=False, note="all axis orders keep the fields of every row together and form a bijection")
+
+
 def unit_flatten(S):
     """flatten_axes() on an (E, S)-shaped rollout with pytree-structured observations/actions: out.f[e*S+s] = in.f[e,s] for every leaf."""
     S.under_contract(F_FL, "lerax.buffer.base_buffer:AbstractBuffer.resolve_axes")
@@ -245,8 +263,26 @@ def unit_flatten(S):
             for ci in itertools.product(*[range(d) for d in lf.shape[1:]]):
                 conj.append(ir.seq(lf.at((e * Sz + s,) + ci), lr.at((e, s) + ci)))
         shapes = sand(*[ir.seq(lf.shape[0], Ez * Sz) for lf in kit.leaves(flat)])
-        S.prove(f"flatten[pytree={pytree}]/bijection-on-every-leaf", ctx, sand(shapes, *conj), hyps=[Ez >= 1, Sz >= 1, e >= 0, e < Ez, s >= 0, s < Sz], function=F_FL,
+        S.prove(f"flatten[pytree={pytree}]/bijection-on-every-leaf", ctx, sand(shapes, *conj), hyps=[Ez >= 1, Sz >= 1, e >= 0, e < Ez, s >= 0, s < Sz], function=F_FL, replay=native_flatten_replay,
                 what="flattening (environment, step) -> e*S+s is the same bijection on every leaf: no sample lost or duplicated, fields stay together")
+        # every way of naming the batch axes (order, negative indices, a single axis): the SAME index map on every leaf
+        for axes in ((0, 1), (1, 0), (-1, -2), (-2, -1), (0, -1), 0, 1, (1,), -1):
+            fl = run(ctx, lambda b_, ax=axes: b_.flatten_axes(ax), buf)
+            res = tuple(a + 2 if a < 0 else a for a in ((axes,) if isinstance(axes, int) else tuple(axes)))
+            size = {0: Ez, 1: Sz}
+            iv = {0: e, 1: s}
+            conj = []
+            for lf, lr in zip(kit.leaves(fl), kit.leaves(buf)):
+                if len(res) == 2:
+                    lead = (iv[res[0]] * size[res[1]] + iv[res[1]],)
+                    nlead = 1
+                else:
+                    lead = (iv[res[0]], iv[1 - res[0]])   # the named axis first, the other one kept
+                    nlead = 2
+                for ci in itertools.product(*[range(d) for d in lf.shape[nlead:]]):
+                    conj.append(ir.seq(lf.at(lead + ci), lr.at((e, s) + ci)))
+            S.prove(f"flatten[pytree={pytree}]/axes={axes}/same-index-map-on-every-leaf", ctx, sand(*conj), hyps=[Ez >= 1, Sz >= 1, e >= 0, e < Ez, s >= 0, s < Sz], function=F_FL, replay=native_flatten_replay,
+                    what="flatten_axes(axes): the named axes are moved to the front IN THE GIVEN ORDER and merged; every leaf (scalar fields and fields with feature axes alike) uses the same index map, so rows stay intact")
     buf0 = RolloutBuffer(jnp.zeros((2, 3, 2)), jnp.zeros((2, 3)), jnp.zeros((2, 3)), jnp.zeros((2, 3), bool), jnp.zeros((2, 3)), jnp.zeros((2, 3)), GPState(jnp.zeros((2, 3, 1))))
     ok = buf0.resolve_axes(None) == (0, 1) and buf0.resolve_axes(-1) == (1,) and buf0.resolve_axes((0, -1)) == (0, 1)
     try:
